@@ -40,6 +40,10 @@ type Dialogue struct {
 	// LineStates is parallel to CLI.Lines: the state in which each complete line arrived.
 	LineStates []WriteState
 	lineState  WriteState
+	// EchoTail > 0: the last EchoTail bytes of every echo are kept back for EchoHold and arrive
+	// in a later read (a terminal that flushes the end of the echoed line late).
+	EchoTail int
+	EchoHold time.Duration
 }
 
 func (d *Dialogue) state() WriteState {
@@ -103,7 +107,11 @@ func NewDialogue(mode string, prompts map[string]string, script []DlgStep) *Dial
 	d.CLI.Pipe.OnWrite = func(b []byte) {
 		d.WriteStates = append(d.WriteStates, d.state())
 		d.lineState = d.state()
+		before := d.CLI.Pipe.Emitted
 		inner(b)
+		if n := d.CLI.Pipe.Emitted - before; d.EchoTail > 0 && n > d.EchoTail && !(len(b) == 1 && b[0] == d.CLI.Return) {
+			holdAfter(d.CLI.Pipe, -d.EchoTail, d.EchoHold)
+		}
 	}
 	return d
 }
